@@ -5,6 +5,7 @@ package sim
 // evaluated canary pod.
 
 import (
+	"fmt"
 	"encoding/json"
 	"time"
 
@@ -159,13 +160,20 @@ func (monC06) TaskEnd(s *Sim, t *Task) {
 					mustPause, mayPause = true, true
 					pwhy = "restart count"
 				}
-				wr := waitingReason(p)
+				// any container counts (a pod may have one container crash-looping and another still creating)
+				anyCannot, anyCreating := false, false
+				for _, cs := range p.Status.ContainerStatuses {
+					if cs.State.Waiting != nil {
+						anyCannot = anyCannot || cannotStartSet[cs.State.Waiting.Reason]
+						anyCreating = anyCreating || cs.State.Waiting.Reason == "ContainerCreating"
+					}
+				}
 				slow := ap.MaxSlowStartDuration
 				var st time.Time
 				if p.Status.StartTime != nil {
 					st = p.Status.StartTime.Time
 				}
-				if cannotStartSet[wr] {
+				if anyCannot {
 					if slow == nil {
 						mustPause, mayPause = true, true
 						pwhy = "cannot start"
@@ -179,7 +187,7 @@ func (monC06) TaskEnd(s *Sim, t *Task) {
 						}
 					}
 				}
-				if wr == "ContainerCreating" && slow != nil {
+				if anyCreating && slow != nil {
 					if start.After(st.Add(slow.Duration + band)) {
 						mustPause = true
 						pwhy = "still creating past maxSlowStartDuration"
@@ -199,7 +207,14 @@ func (monC06) TaskEnd(s *Sim, t *Task) {
 		case !unpaused && mustPause && !gotPaused:
 			s.Violate("C06", "must-pause", pwhy, "%s: auto-pause trigger (%s) holds but Canary-Paused is not true after the sync", t.Label(), pwhy)
 		case !unpaused && !mayPause && !readPaused && gotPaused:
-			s.Violate("C06", "must-not-pause", "", "%s: Canary-Paused became true without trigger (autoPause enabled=%v)", t.Label(), *ap.Enabled)
+			reason, desc := "", ""
+			if pc := ersCond(written, edsv1.ConditionTypeCanaryPaused); pc != nil {
+				reason = pc.Reason
+			}
+			for _, p := range pods {
+				desc += fmt.Sprintf(" [%s restarts=%d waiting=%q start=%v]", p.Name, maxRestart(p), waitingReason(p), p.Status.StartTime)
+			}
+			s.Violate("C06", "must-not-pause", "", "%s: Canary-Paused became true (reason %q) without trigger (autoPause enabled=%v, maxRestarts=%v, maxSlowStartDuration=%v); pods evaluated:%s", t.Label(), reason, *ap.Enabled, *ap.MaxRestarts, ap.MaxSlowStartDuration, desc)
 		}
 	}
 	// restart tracking: what C05's noRestartsDuration clause relies on. After the sync the
